@@ -48,6 +48,7 @@ int __real_clock_nanosleep(clockid_t, int, const struct timespec *, struct times
 int __real_usleep(useconds_t);
 unsigned __real_sleep(unsigned);
 int __real_sched_yield(void);
+long __real_syscall(long n, ...);
 int __real_sigprocmask(int how, const sigset_t *set, sigset_t *old);
 int __real_pthread_sigmask(int how, const sigset_t *set, sigset_t *old);
 int __real_sigaction(int signo, const struct sigaction *act, struct sigaction *old);
@@ -831,6 +832,16 @@ unsigned __wrap_sleep(unsigned s) {
   Ig ig_;
   sleep_ns((int64_t)s * 1000000000LL);
   return 0;
+}
+
+// The kernel thread id ends up in log records: its number of digits would make record lengths, and with them
+// buffer boundaries, differ from process to process.  Simulated threads get stable six-digit ids.
+long __wrap_syscall(long n, ...) {
+  va_list ap; va_start(ap, n);
+  long a1 = va_arg(ap, long), a2 = va_arg(ap, long), a3 = va_arg(ap, long), a4 = va_arg(ap, long), a5 = va_arg(ap, long), a6 = va_arg(ap, long);
+  va_end(ap);
+  if (n == SYS_gettid && g_active && t_self != nullptr) return 100000 + t_self->id;
+  return __real_syscall(n, a1, a2, a3, a4, a5, a6);
 }
 
 // Changing the signal mask or a disposition is a point at which the thread can lose the processor: code that
